@@ -17,23 +17,26 @@ Local Open Scope N_scope.
 
 var profiles = map[string]Profile{
 	// general mix used by most sequential properties
-	"mix": {Name: "mix", Txns: 14, KeyedPct: 25, SeedPct: 35, SchemaPct: 12, RestorePct: 6, ReplicaPct: 15,
+	"mix": {Name: "mix", Txns: 14, KeyedPct: 25, SeedPct: 35, NestedPct: 8, SchemaPct: 12, RestorePct: 6, ReplicaPct: 15,
 		AbortPct: 15, FilterPct: 16, FailInsPct: 6, MaxStmts: 7, Long: true},
 	"values": {Name: "values", Txns: 16, KeyedPct: 10, SeedPct: 40, SchemaPct: 10, RestorePct: 0, ReplicaPct: 0,
 		AbortPct: 8, FilterPct: 4, FailInsPct: 2, MaxStmts: 8, Long: true},
-	"atomic": {Name: "atomic", Txns: 14, KeyedPct: 30, SeedPct: 30, SchemaPct: 5, AbortPct: 50, FilterPct: 12,
+	"atomic": {Name: "atomic", Txns: 14, KeyedPct: 30, SeedPct: 30, NestedPct: 20, SchemaPct: 5, AbortPct: 50, FilterPct: 12,
 		FailInsPct: 25, MaxStmts: 8},
 	"index": {Name: "index", Txns: 14, KeyedPct: 10, SeedPct: 35, SchemaPct: 30, RestorePct: 8, ReplicaPct: 15,
 		AbortPct: 10, FilterPct: 10, FailInsPct: 3, MaxStmts: 7},
 	"filter": {Name: "filter", Txns: 10, KeyedPct: 10, SeedPct: 45, SchemaPct: 10, AbortPct: 10, FilterPct: 33,
 		FailInsPct: 2, MaxStmts: 9},
-	"keys": {Name: "keys", Txns: 16, KeyedPct: 100, SeedPct: 0, SchemaPct: 5, RestorePct: 5, ReplicaPct: 15,
+	"keys": {Name: "keys", Txns: 16, KeyedPct: 100, SeedPct: 40, NestedPct: 10, SchemaPct: 5, RestorePct: 5, ReplicaPct: 15,
 		AbortPct: 20, FilterPct: 6, FailInsPct: 8, MaxStmts: 6},
 	"replica": {Name: "replica", Txns: 12, KeyedPct: 25, SeedPct: 40, SchemaPct: 8, ReplicaPct: 50,
 		AbortPct: 12, FilterPct: 8, FailInsPct: 5, MaxStmts: 7},
-	"restore": {Name: "restore", Txns: 10, KeyedPct: 25, SeedPct: 45, SchemaPct: 10, RestorePct: 35, ReplicaPct: 0,
+	"restore": {Name: "restore", Txns: 10, KeyedPct: 25, SeedPct: 45, DensePct: 6, SchemaPct: 10, RestorePct: 35, ReplicaPct: 0,
 		AbortPct: 10, FilterPct: 8, FailInsPct: 4, MaxStmts: 7, Long: true},
-	"alloc": {Name: "alloc", Txns: 22, KeyedPct: 15, SeedPct: 35, SchemaPct: 4, AbortPct: 25, FilterPct: 10,
+	// a completely full last block, then restores and a few transactions
+	"dense": {Name: "dense", Txns: 5, KeyedPct: 20, SeedPct: 100, DensePct: 100, SchemaPct: 5, RestorePct: 60, ReplicaPct: 20,
+		AbortPct: 10, FilterPct: 6, FailInsPct: 4, MaxStmts: 5},
+	"alloc": {Name: "alloc", Txns: 22, KeyedPct: 15, SeedPct: 35, NestedPct: 25, DensePct: 3, SchemaPct: 4, AbortPct: 25, FilterPct: 10,
 		FailInsPct: 12, MaxStmts: 9},
 }
 
@@ -55,7 +58,7 @@ type runSummary struct {
 func snapshotCounts(s *Stats) map[string]int {
 	m := map[string]int{"txns": s.Txns, "commits": s.Commits, "aborts": s.Aborts, "stmts": s.Stmts,
 		"multiblock": s.MultiBlockTxns, "reuse": s.ReuseAfterDelete, "youngcols": s.YoungCols,
-		"restores": s.Restores, "replicas": s.Replicas, "keyed": s.Keyed, "seeded": s.Seeded,
+		"restores": s.Restores, "nested": s.Nested, "dense": s.Tall, "replicas": s.Replicas, "keyed": s.Keyed, "seeded": s.Seeded,
 		"failedinserts": s.FailedInserts, "emitted": s.EmittedCommits, "trigger_events": s.TriggerEvents}
 	for k, v := range s.StmtKinds {
 		m["stmt."+k] = v
